@@ -645,7 +645,13 @@ func (ls *LState) raiseError(level int, format string, args ...interface{}) {
 		message = fmt.Sprintf(format, args...)
 	}
 	if level > 0 {
-		message = fmt.Sprintf("%v %v", ls.where(level-1, true), message)
+		// level 1 is the function that raises the error: the running Lua function itself, or the caller of the
+		// running host function (error, a failing library function); level 2 is the caller of that function
+		at := level - 1
+		if cf := ls.currentFrame; cf != nil && cf.Fn.IsG {
+			at = level
+		}
+		message = fmt.Sprintf("%v %v", ls.where(at, true), message)
 	}
 	if ls.reg.IsFull() {
 		// if the registry is full then it won't be possible to push a value, in this case, force a larger size
